@@ -1,3 +1,4 @@
 pub mod data;
 pub mod schema_reader;
 pub mod cryptoframe;
+pub mod malformed;
